@@ -27,31 +27,110 @@ func validate(n node) error {
 	})
 }
 
+// isLeftRecursive reports whether root can be re-entered before a token has been consumed: directly or
+// through other productions, union members, groups, captures and lookahead groups, in any alternative,
+// also after sub-expressions that can match nothing.
 func isLeftRecursive(root *strct) (found bool) {
-	defer func() { _ = recover() }()
-	seen := map[node]bool{}
-	_ = visit(root.expr, func(n node, next func() error) error {
-		if found {
-			return nil
-		}
-		switch n := n.(type) {
-		case *strct:
-			if root.typ == n.typ {
-				found = true
-			}
+	return reachesBeforeConsuming(root.expr, root, map[node]bool{})
+}
 
-		case *sequence:
-			if !n.head {
-				panic("done")
-			}
+// reachesBeforeConsuming reports whether parsing n can enter target without having consumed a token.
+func reachesBeforeConsuming(n node, target *strct, seen map[node]bool) bool {
+	switch n := n.(type) {
+	case *strct:
+		if n.typ == target.typ {
+			return true
 		}
 		if seen[n] {
-			return nil
+			return false
 		}
 		seen[n] = true
-		return next()
-	})
-	return
+		return reachesBeforeConsuming(n.expr, target, seen)
+	case *union:
+		if seen[n] {
+			return false
+		}
+		seen[n] = true
+		for _, member := range n.disjunction.nodes {
+			if reachesBeforeConsuming(member, target, seen) {
+				return true
+			}
+		}
+	case *disjunction:
+		for _, child := range n.nodes {
+			if reachesBeforeConsuming(child, target, seen) {
+				return true
+			}
+		}
+	case *sequence:
+		for ; n != nil; n = n.next {
+			if reachesBeforeConsuming(n.node, target, seen) {
+				return true
+			}
+			if !canMatchNothing(n.node, map[node]bool{}) {
+				return false
+			}
+		}
+	case *capture:
+		return reachesBeforeConsuming(n.node, target, seen)
+	case *group:
+		return reachesBeforeConsuming(n.expr, target, seen)
+	case *lookaheadGroup:
+		return reachesBeforeConsuming(n.expr, target, seen)
+	case *negation:
+		return reachesBeforeConsuming(n.node, target, seen)
+	}
+	return false
+}
+
+// canMatchNothing reports whether n can succeed without consuming a token.
+func canMatchNothing(n node, seen map[node]bool) bool {
+	switch n := n.(type) {
+	case *strct:
+		if seen[n] {
+			return false
+		}
+		seen[n] = true
+		defer delete(seen, n)
+		return canMatchNothing(n.expr, seen)
+	case *union:
+		if seen[n] {
+			return false
+		}
+		seen[n] = true
+		defer delete(seen, n)
+		for _, member := range n.disjunction.nodes {
+			if canMatchNothing(member, seen) {
+				return true
+			}
+		}
+	case *disjunction:
+		for _, child := range n.nodes {
+			if canMatchNothing(child, seen) {
+				return true
+			}
+		}
+	case *sequence:
+		for ; n != nil; n = n.next {
+			if !canMatchNothing(n.node, seen) {
+				return false
+			}
+		}
+		return true
+	case *capture:
+		return canMatchNothing(n.node, seen)
+	case *group:
+		switch n.mode {
+		case groupMatchZeroOrOne, groupMatchZeroOrMore:
+			return true
+		case groupMatchNonEmpty:
+			return false
+		}
+		return canMatchNothing(n.expr, seen)
+	case *lookaheadGroup:
+		return true
+	}
+	return false
 }
 
 func indent(s string) string {
